@@ -217,11 +217,13 @@ func (s *ManagedServer) AddCredential(username string, uPSK []byte) error {
 	}
 	s.cachedCredMap[username] = uc
 	s.cachedUserLookupMap[uc.uPSKHash] = c
-	s.mu.Unlock()
-	s.enqueueSave()
+	// Apply to the live maps before releasing the lock, so that
+	// concurrent changes reach them in the same order as the cache.
 	s.updateProdULM(func(ulm ss2022.UserLookupMap) {
 		ulm[uc.uPSKHash] = c
 	})
+	s.mu.Unlock()
+	s.enqueueSave()
 	return nil
 }
 
@@ -254,12 +256,12 @@ func (s *ManagedServer) UpdateCredential(username string, uPSK []byte) error {
 	uc.uPSKHash = ss2022.PSKHash(uPSK)
 	delete(s.cachedUserLookupMap, oldUPSKHash)
 	s.cachedUserLookupMap[uc.uPSKHash] = c
-	s.mu.Unlock()
-	s.enqueueSave()
 	s.updateProdULM(func(ulm ss2022.UserLookupMap) {
 		delete(ulm, oldUPSKHash)
 		ulm[uc.uPSKHash] = c
 	})
+	s.mu.Unlock()
+	s.enqueueSave()
 	return nil
 }
 
@@ -273,11 +275,11 @@ func (s *ManagedServer) DeleteCredential(username string) error {
 	}
 	delete(s.cachedCredMap, username)
 	delete(s.cachedUserLookupMap, uc.uPSKHash)
-	s.mu.Unlock()
-	s.enqueueSave()
 	s.updateProdULM(func(ulm ss2022.UserLookupMap) {
 		delete(ulm, uc.uPSKHash)
 	})
+	s.mu.Unlock()
+	s.enqueueSave()
 	return nil
 }
 
@@ -333,7 +335,6 @@ func (s *ManagedServer) LoadFromFile() error {
 	s.cachedContent = strings.Clone(content)
 	s.cachedUserLookupMap = userLookupMap
 	s.cachedCredMap = credMap
-	s.mu.Unlock()
 
 	if s.tcp != nil {
 		s.tcp.ReplaceUserLookupMap(maps.Clone(s.cachedUserLookupMap))
@@ -341,6 +342,7 @@ func (s *ManagedServer) LoadFromFile() error {
 	if s.udp != nil {
 		s.udp.ReplaceUserLookupMap(maps.Clone(s.cachedUserLookupMap))
 	}
+	s.mu.Unlock()
 
 	return nil
 }
